@@ -86,8 +86,10 @@ class Scratch:
         self.cleanup()
 
 
-def generate_many(reqs: list[dict], jobs: int = 12, hashseed: str | None = None) -> list[dict]:
-    """Run generation requests on a pool of gen_worker processes (each request in one worker call)."""
+def generate_many(reqs: list[dict], jobs: int = 12, hashseed: str | None = None,
+                  script: str = "gen_worker.py") -> list[dict]:
+    """Run generation requests on a pool of gen_worker processes (each request in one worker call).
+    `script`: another worker script speaking the same protocol (path relative to this directory)."""
     if not reqs:
         return []
     jobs = max(1, min(jobs, len(reqs)))
@@ -98,7 +100,7 @@ def generate_many(reqs: list[dict], jobs: int = 12, hashseed: str | None = None)
     def get():
         w = getattr(local, "w", None)
         if w is None or w.p.poll() is not None:
-            w = Worker("gen_worker.py", env=child_env(hashseed=hashseed))
+            w = Worker(script, env=child_env(hashseed=hashseed))
             local.w = w
             with lock:
                 workers.append(w)
